@@ -108,6 +108,15 @@ CHECKS = {
         "constraint is checked when its operands become ground (C19_delayed, C19_rerun_all). Tied to the code by running every posting order of "
         "random programs (aliasing, chains, zero/negative/non-divisible cases; exhaustive single constraints in thorough) on the real engine and "
         "in the model; oracle: integer arithmetic."),
+    "C21": dict(text="Full-strength theorems about the Lean model of the LTerm API, for ALL terms and element sequences: the PartialEq match is exactly "
+        "structural equality with variables by identity, hence reflexive, symmetric, transitive (C21_eq_iff, C21_equiv); equal terms feed the "
+        "same items to any hasher (C21_hash); iter(from_vec xs) = xs and iter of an improper list = elements ++ [tail] (C21_iter_ofList, "
+        "C21_iter_improper); extend appends on proper lists and panics otherwise (C21_extend, C21_extend_improper); indexing, head, tail, "
+        "is_list, is_empty as on the sequence (C21_index, C21_head_tail); is_improper iff the spine does not end in [] "
+        "(C21_improper_spine, C21_ofList_proper); contains is membership (C21_contains); iter_mut is the positional update incl. the improper "
+        "tail (C21_iter_mut, C21_iter_mut_improper); Display is [a, b, c] / [a, b | t] (C21_display_list, C21_display_improper). Tied to the "
+        "code by direct API calls on generated terms diffed against the model, with a Vec-based oracle. The check found and the repo now "
+        "carries a fix for D19 (iter_mut skipped the improper tail)."),
     "C18": dict(text="Full-strength theorems (21, for all well-formed domains in both representations, all integers, all predicates): "
         "intersect/diff/is_disjoint/contains/min/max/is_singleton/singleton_value/iteration/==/copy_before/drop_before/From<Vec> of the Lean "
         "model of fd.rs equal the set operations, None exactly on empty results, results well-formed again. The model is tied to fd.rs by "
